@@ -165,7 +165,7 @@ def run(ctx: Ctx):
         "an assignment is stateful iff some dependency found in the lookup table is; names that are not in the table (t, time, missing variables) are skipped",
         "Assignment.is_stateful is no longer 'some dependency that the lookup table knows is stateful, unknown names skipped': an expression that also mentions t / time (or a missing variable) can be classified as not depending on a state, and its singularities are never searched (the answer then also depends on the order of a frozenset)",
     )
-    util.same_as_reference(ctx, "R16.b", "atoms.py", "Atom.is_stateful", REF_ATOM_IS_STATEFUL, "states-are-stateful", "states (plain or time dependent) are stateful, parameters are not", "Atom.is_stateful no longer answers True exactly for State / TimeDependentState")
+    util.same_as_reference(ctx, "R16.b", "atoms.py", "Atom.is_stateful", REF_ATOM_IS_STATEFUL, "states-are-stateful", "states (plain or time dependent) are stateful, parameters are not", "Atom.is_stateful no longer answers True exactly for State / TimeDependentState", project=util.expand_isinstance)
     import ast as _ast
 
     from sa.sm import norm as _norm
